@@ -98,6 +98,12 @@ pub mod mm {
     }
     #[inline]
     pub fn acos(x: f32) -> f32 {
+        // Micromath computes atan(sqrt(1 - x²) / x), squaring the quotient
+        // on the way: for 0 < |x| < 5e-20 that overflows and yields NaN.
+        // There acos(x) = π/2 - x to well within f32 precision
+        if x.abs() < 1e-10 {
+            return core::f32::consts::FRAC_PI_2 - x;
+        }
         mm::acos(x)
     }
     #[inline]
